@@ -21,7 +21,7 @@ RULE = ('Evaluation = one run() + three metar_msg() calls on a frame that satisf
         'parameters); every case counts as non-trivial except the single-row ones.')
 ASSUMPTIONS = ['BLAS/OpenMP threads fixed to 1', 'settings that shatter > 150 hits into hundreds of slices are not '
                'generated: the grouping step is quadratic in the number of slices (slow, not divergent)']
-REQUIRED = ['debug_logging', 'fam:ulp_dt', 'range_index', 'fam:gmm_direct', 'extra_object_columns', 'extreme_parameters', 'fam:generic', 'fam:degenerate', 'fam:bimodal', 'fam:chain', 'fam:empty_after_crop', 'scaling:minmax-scale',
+REQUIRED = ['fam:extreme_axes', 'fam:extreme_clustering', 'debug_logging', 'fam:ulp_dt', 'range_index', 'fam:gmm_direct', 'extra_object_columns', 'extreme_parameters', 'fam:generic', 'fam:degenerate', 'fam:bimodal', 'fam:chain', 'fam:empty_after_crop', 'scaling:minmax-scale',
             'scaling:shift-and-scale', 'scaling:step-scale', 'anomalies', 'refusal:missing_column',
             'refusal:duplicates', 'refusal:type0_coincident', 'refusal:vv_coincident', 'refusal:empty',
             'refusal:not_a_frame', 'refusal:call_order', 'refusal:min_sep_lengths'] + \
@@ -52,6 +52,8 @@ def plan(tier, seed):
         out.append({'fam': 'degenerate', 's': seed, 'p': NUM, 'i': 200000 + i, 'k': {'kind': kind, 'rich': True}})
     for i in range(6 if tier == 'quick' else 60):
         out.append({'fam': 'empty_after_crop', 's': seed, 'p': NUM, 'i': 300000 + i})
+    for i in range(48 if tier == 'quick' else 2400):       # legal extremes of the time / height axes and of the clustering settings
+        out.append({'fam': 'extreme_axes' if i % 2 else 'extreme_clustering', 's': seed, 'p': NUM, 'i': 700000 + i})
     for i in range(24 if tier == 'quick' else 600):        # time stamps of one instrument one ulp apart, full layer
         out.append({'fam': 'ulp_dt', 's': seed, 'p': NUM, 'i': 600000 + i})
     for i in range(12 if tier == 'quick' else 200):        # 500 direct calls of the layering helper each
@@ -172,6 +174,53 @@ def check_gmm_direct(desc):
             'sample': {'workload': 'direct ncomp_from_gmm on quantised heights', 'vals': vals.tolist()[:12]} if desc['i'] % 6 == 0 else None}
 
 
+def extreme_case(desc):
+    """Legal extremes: microsecond or month-long spans, time axes offset by 1e9 s, all hits within a few feet of
+    the top / the ground of the range, 12 instruments, up to 2500 rows; clustering thresholds from 1e-6 to 100,
+    dt scales from 1e-3 to 1e9, every scaling mode with scales / ranges over nine decades, paddings up to 1e4 %."""
+    rng = scenes.rng_for(desc['s'], NUM, desc['i'])
+    i = desc['i']
+    if desc['fam'] == 'extreme_axes':
+        sc = scenes.gen_scene(rng, nce=int(rng.choice([1, 2, 5, 12])), big=True, anomalies=(i % 4 == 1),
+                              maxrows=int(rng.choice([50, 400, 2500])))
+        mode = (i // 2) % 6
+        for r in sc['rows']:
+            if mode == 0:
+                r[1] = r[1] * 1e-6
+            elif mode == 1:
+                r[1] = r[1] + 1e9
+            elif mode == 2:
+                r[1] = r[1] * 1e4
+            elif mode == 3 and r[2] == r[2]:
+                r[2] = 99999.0 - (99999.0 - r[2]) * 1e-3
+            elif mode == 4 and r[2] == r[2]:
+                r[2] = r[2] * 1e-3
+        sc['rows'] = scenes.dedupe(sc['rows'])
+        prm = scenes.gen_prms(rng, sc, extreme=(i % 3 == 0))
+    else:
+        sc = scenes.gen_scene(rng, nce=int(rng.choice([1, 2, 3])), maxrows=120)
+        prm = scenes.gen_prms(rng, sc, rich=False)
+        m = str(rng.choice(['minmax-scale', 'shift-and-scale', 'step-scale']))
+        sp = {'distance_threshold': float(rng.choice([1e-6, 1e-3, 0.05, 1.0, 100.0])),
+              'dt_scale': float(rng.choice([1e-3, 1.0, 100, 1e5, 1e9])), 'height_scale_mode': m}
+        if m == 'minmax-scale':
+            sp['height_scale_kwargs'] = {'min_range': float(rng.choice([1e-3, 1.0, 1000, 1e6]))}
+        elif m == 'shift-and-scale':
+            sp['height_scale_kwargs'] = {'scale': float(rng.choice([1e-3, 1.0, 1000, 1e6]))}
+        else:
+            k = int(rng.integers(0, 4))
+            st = sorted(float(x) for x in rng.choice([0.0, 100.0, 3000.0, 8000.0, 50000.0], k, replace=False))
+            sp['height_scale_kwargs'] = {'steps': st, 'scales': [float(rng.choice([1e-2, 1, 100, 1e4])) for _ in range(k + 1)]}
+        prm['glob']['SLICING_PRMS'] = sp
+        prm['call']['GROUPING_PRMS'] = {'height_pad_perc': float(rng.choice([0, 1e-6, 100, 1e4])),
+                                        'dt_scale': float(rng.choice([1e-3, 1, 180, 1e9])),
+                                        'height_scale_range': [float(rng.choice([1e-6, 1, 100])), float(rng.choice([100, 1e6]))]}
+    sc['fam'] = desc['fam']
+    if scenes.empties_chunk(sc, obs.effective(prm)):
+        prm['call']['MSA'] = None
+    return {'scene': sc, 'prm': prm}
+
+
 def check(desc):
     from ampycloud.errors import AmpycloudError
     from ampycloud.data import CeiloChunk
@@ -179,7 +228,10 @@ def check(desc):
         return check_refusal(desc)
     if desc['fam'] == 'gmm_direct':
         return check_gmm_direct(desc)
-    case = empty_after_crop_case(desc) if desc['fam'] == 'empty_after_crop' else pipeline.materialise(desc)
+    if desc['fam'] in ('extreme_axes', 'extreme_clustering'):
+        case = extreme_case(desc)
+    else:
+        case = empty_after_crop_case(desc) if desc['fam'] == 'empty_after_crop' else pipeline.materialise(desc)
     t0 = time.process_time()
     if desc['fam'] == 'generic' and desc['i'] % 40 == 7:
         from .. import env as _env
